@@ -8,7 +8,8 @@ from vf.teq import teq
 
 ID = 'C10'
 LEVEL = 'exploration'
-RULE = ('random signature shape (fn / class __init__ / class __new__ / registered method / callable object / bound method; pos, defaulted, *args, '
+RULE = ('random signature shape (fn / class __init__ / class __new__ / registered method / callable object / bound method / function behind a non-Gin '
+        'functools.wraps decorator whose own signature consumes, injects, re-names or hides leading positionals; pos, defaulted, *args, '
         'kw-only, **kw) x placement of gin.REQUIRED among positional slots, keywords, signature defaults, names absorbed by **kw, a *args slot, a '
         'surplus positional slot without *args and an unknown keyword without **kw x active scope (entered as list / string / nested with / scoped '
         'selector of get_configurable / scoped or unscoped @reference of a consumer) x subset of marked parameters with an applicable binding '
@@ -40,7 +41,12 @@ REQUIRED_BUCKETS = ['shape:fn', 'shape:init', 'shape:new', 'shape:method', 'mark
                     'scope:string-config_scope', 'scope:nested-with', 'path:get_configurable-scoped-selector', 'path:scoped-reference',
                     'path:unscoped-reference', 'scope:marked-bound-at-two-levels', 'scope:suffix-of-active-binding',
                     # markers outside the signature
-                    'mark:surplus-positional-no-varargs', 'mark:unknown-keyword-no-varkw', 'outcome:varkw-extra-filled']
+                    'mark:surplus-positional-no-varargs', 'mark:unknown-keyword-no-varkw', 'outcome:varkw-extra-filled',
+                    # the configurable is a functools.wraps wrapper of a non-Gin decorator: the signature that counts is the one Gin calls
+                    'shape:decorated', 'deco:pass-through-signature-hidden', 'deco:layout-shifted-consumes-leading', 'deco:layout-shifted-injects-leading',
+                    'deco:marker-in-wrapper-varargs-slot-named-by-inner', 'deco:positional-marker-on-wrapper-named-param',
+                    'deco:keyword-marker-on-inner-param', 'deco:wrapper-signature-required', 'deco:marker-on-consumed-leading-param',
+                    'deco:filled', 'deco:missing', 'deco:vararg-rejected']
 ORACLE_COUNTERS = ['oracle_evals', 'calls_compared', 'error_messages_parsed']
 MSG = re.compile(r"Required bindings for `([^`]+)` not provided in config: (\[.*?\])", re.S)
 
@@ -123,6 +129,30 @@ def pick_value(rng, textual, marked=False):
   return vk, ('parse' if vk in VK_REFS or rng.random() < 0.7 else 'bind')
 
 
+def gen_bindings(rng, bindable, marked, active, textual, unmarked_prob=0.25):
+  """[scope, param, value kind, via] entries: marked names mostly bound (applicable / only under a non-applicable scope / not at all)."""
+  bindings = []
+  for x in bindable:
+    r = rng.random()
+    if x in marked:
+      if r < 0.6:
+        n1 = rng.randrange(0, len(active) + 1)
+        bindings.append(['/'.join(active[:n1]), x] + list(pick_value(rng, textual, marked=True)))
+        if active and rng.random() < 0.35:
+          # the same marked parameter bound at a second prefix level: the longer prefix wins
+          n2 = rng.choice([n for n in range(len(active) + 1) if n != n1])
+          bindings.append(['/'.join(active[:n2]), x] + list(pick_value(rng, textual, marked=True)))
+      elif r < 0.85:
+        cands = ['zz', '/'.join(active) + '/deeper' if active else 'zz/a', 'b/zz']
+        if len(active) >= 2:
+          cands += ['/'.join(active[1:])] * 2  # a suffix of the active scope (applies only if it happens to be a prefix as well)
+        bindings.append([rng.choice(cands), x] + list(pick_value(rng, textual, marked=True)))
+    elif r < unmarked_prob:
+      bindings.append(['/'.join(active[:rng.randrange(0, len(active) + 1)]), x] + list(pick_value(rng, textual)))
+  rng.shuffle(bindings)
+  return bindings
+
+
 def gen_call_case(rng, i):
   shape = SHAPES[i % 8]
   mode = rng.choice(MODES + ['reference', 'reference'])
@@ -150,25 +180,7 @@ def gen_call_case(rng, i):
   active = [rng.choice(['a', 'b']) for _ in range(rng.choice([0, 0, 1, 2, 3]))]
   marked = [pos[i] for i in call['marks_pos']] + call['marks_kw'] + sig_marked_names(spec)
   bindable = [x for x in names if ok(x)] + (['x0', 'x1', 'x2'] if spec['varkw'] and not allow else [])
-  bindings = []
-  for x in bindable:
-    r = rng.random()
-    if x in marked:
-      if r < 0.6:
-        n1 = rng.randrange(0, len(active) + 1)
-        bindings.append(['/'.join(active[:n1]), x] + list(pick_value(rng, textual, marked=True)))
-        if active and rng.random() < 0.35:
-          # the same marked parameter bound at a second prefix level: the longer prefix wins
-          n2 = rng.choice([n for n in range(len(active) + 1) if n != n1])
-          bindings.append(['/'.join(active[:n2]), x] + list(pick_value(rng, textual, marked=True)))
-      elif r < 0.85:
-        cands = ['zz', '/'.join(active) + '/deeper' if active else 'zz/a', 'b/zz']
-        if len(active) >= 2:
-          cands += ['/'.join(active[1:])] * 2  # a suffix of the active scope (applies only if it happens to be a prefix as well)
-        bindings.append([rng.choice(cands), x] + list(pick_value(rng, textual, marked=True)))
-    elif r < 0.25:
-      bindings.append(['/'.join(active[:rng.randrange(0, len(active) + 1)]), x] + list(pick_value(rng, textual)))
-  rng.shuffle(bindings)
+  bindings = gen_bindings(rng, bindable, marked, active, textual)
   case = {'kind': 'call', 'spec': spec, 'active': active, 'bindings': bindings, 'mode': mode,
           'ref_scoped': bool(active) and rng.random() < 0.6}
   case.update(call)
@@ -219,12 +231,85 @@ def gen_history_case(rng, i):
   return case
 
 
+def gen_deco_layout(rng):
+  """A function behind a non-Gin decorator that uses functools.wraps.  The callable Gin registers, calls and whose signature it must read is the
+  decorator's wrapper `wrapper(<lead...>, <kept...>, *args, **kwargs)`, which calls `inner(<injected...>, <kept...>, *args, **kwargs)`:
+    lead    parameters of the wrapper alone, consumed by it (the inner function never sees them)
+    inject  leading inner positionals the wrapper supplies itself (the caller never passes them)
+    kept    the inner positionals following the injected ones that the wrapper names as well (optionally with defaults of its own, some gin.REQUIRED)
+  lead = inject = kept = 0 is the everyday signature-hiding `wrapper(*args, **kwargs)`.  Returns (outer spec = the wrapper's signature, layout)."""
+  inner = probes.gen_spec(rng, shapes=['fn'], lists=False, max_pos=3)
+  ipos = probes.positional_names(inner)
+  inject = 1 if ipos and rng.random() < 0.35 else 0
+  lead = rng.choice([0, 0, 0, 1, 1, 2])
+  kept = ipos[inject:inject + rng.choice([0, 0, 1, 2])]
+  own_defaults = bool(kept) and rng.random() < 0.45
+  spec = {'shape': 'decorated', 'api': inner['api'], 'pos': ['w%d' % j for j in range(lead)] + ([] if own_defaults else list(kept)),
+          'dflt': [[q, {'__required__': True} if rng.random() < 0.5 else 'wdflt-' + q] for q in kept] if own_defaults else [],
+          'varargs': True, 'kwonly': [], 'varkw': True}
+  return spec, {'inner': inner, 'lead': lead, 'inject': inject, 'kept': list(kept)}
+
+
+def gen_deco_call_shape(rng, spec, deco):
+  inner = deco['inner']
+  pos = probes.positional_names(spec)                     # the positional slots that have a name in the callable Gin calls
+  ipos = probes.positional_names(inner)
+  injected = ipos[:deco['inject']]
+  rest = ipos[deco['inject'] + len(deco['kept']):]        # inner positionals reachable only through the wrapper's unnamed *args
+  nP = len(pos) if rng.random() < 0.6 else rng.randrange(0, len(pos) + 1)
+  marks_pos = [i for i in range(nP) if rng.random() < 0.4]
+  extraP, vararg_mark = 0, None
+  if nP == len(pos) and rng.random() < 0.65:
+    hi = len(rest) + (2 if inner['varargs'] else 0)
+    extraP = rng.randrange(1, hi + 1) if hi else (1 if rng.random() < 0.2 else 0)
+    if extraP and rng.random() < 0.5:
+      vararg_mark = rng.randrange(extraP)
+  K, marks_kw = [], []
+  for x in pos[nP:]:
+    if rng.random() < (0.8 if x in spec['pos'] else 0.3):
+      K.append(x)
+      if rng.random() < 0.55:
+        marks_kw.append(x)
+  for x in probes.all_named(inner):
+    if x in injected or x in deco['kept'] or x in rest[:extraP]:
+      continue
+    needs = x in inner['pos'] or any(k[0] == x and not k[1] for k in inner['kwonly'])
+    if rng.random() < (0.8 if needs else 0.3):
+      K.append(x)
+      if rng.random() < 0.55:
+        marks_kw.append(x)
+  if inner['varkw'] and rng.random() < 0.4:
+    for x in rng.sample(['x0', 'x1', 'x2'], rng.randrange(1, 3)):
+      K.append(x)
+      if rng.random() < 0.7:
+        marks_kw.append(x)
+  rng.shuffle(K)
+  return {'nP': nP, 'marks_pos': marks_pos, 'extraP': extraP, 'vararg_mark': vararg_mark, 'K': K, 'marks_kw': marks_kw}
+
+
+def gen_deco_case(rng, i):
+  spec, deco = gen_deco_layout(rng)
+  call = gen_deco_call_shape(rng, spec, deco)
+  inner = deco['inner']
+  pos = probes.positional_names(spec)
+  active = [rng.choice(['a', 'b']) for _ in range(rng.choice([0, 0, 1, 2, 3]))]
+  marked = [pos[j] for j in call['marks_pos']] + call['marks_kw'] + sig_marked_names(spec)
+  # what the binding APIs accept is decided on the innermost function: its names, and any name at all (the wrapper's own ones too) iff it has **kwargs
+  bindable = probes.all_named(inner) + ([x for x in pos if x not in deco['kept']] + ['x0', 'x1', 'x2'] if inner['varkw'] else [])
+  bindings = gen_bindings(rng, bindable, marked, active, rng.random() < 0.3, unmarked_prob=0.35)
+  case = {'kind': 'call', 'spec': spec, 'deco': deco, 'active': active, 'bindings': bindings, 'mode': rng.choice(MODES), 'ref_scoped': False}
+  case.update(call)
+  return case
+
+
 def iter_cases(ctx, rng, n):
   for i in range(n):
     if i % 12 == 11:
       yield gen_reg_case(rng)
     elif i % 18 == 4:
       yield gen_history_case(rng, i)
+    elif i % 10 == 7:
+      yield gen_deco_case(rng, i)
     else:
       yield gen_call_case(rng, i)
 
@@ -390,6 +475,59 @@ def build_probe(ctx, spec, decoy):
   return spec, p
 
 
+def build_decorated(ctx, spec, deco):
+  """Registers the decorator's wrapper (see gen_deco_layout).  The returned probe describes the wrapper: .spec its signature, .twin CPython's binder for
+  it chained to the inner function's binder, .pid the inner function's recorder id, .ran one entry per run of the wrapper's body (what it consumed)."""
+  import functools
+  inner = probes.build(dict(deco['inner']), register=False)
+  lead = ['w%d' % j for j in range(deco['lead'])]
+  p = probes.Probe()
+  p.spec, p.pid, p.name, p.module, p.inner = spec, inner.pid, inner.name, 'vfp.deco', inner
+  p.defaults = probes.make_defaults(spec)
+  p.ran = []
+  params = probes.params_source(spec, 'VF_WD')
+  fwd = ', '.join(['VF_INJ[%d]' % j for j in range(deco['inject'])] + list(deco['kept']) + ['*args', '**kwargs'])
+  consumed = '{' + ', '.join("'<%s>': %s" % (x, x) for x in lead) + '}'
+  g = {'VF_WD': p.defaults, 'VF_INJ': [['injected-by-decorator', j] for j in range(deco['inject'])], 'VF_ran': p.ran, 'VF_fn': inner.original,
+       'VF_twin': inner.twin, '__name__': 'vfprobes'}
+  src = ('def VF_wrapper(%s):\n  VF_ran.append(%s)\n  return VF_fn(%s)\n'
+         'def VF_wtwin(%s):\n  r = dict(VF_twin(%s))\n  r.update(%s)\n  return r\n' % (params, consumed, fwd, params, fwd, consumed))
+  exec(src, g)  # pylint: disable=exec-used
+  p.source = inner.source + src
+  p.original = functools.wraps(inner.original)(g['VF_wrapper'])
+  p.twin = g['VF_wtwin']
+  probes.do_register(p)
+  track(p.selector)
+  ctx.bucket('shape:decorated')
+  if deco['lead']:
+    ctx.bucket('deco:layout-shifted-consumes-leading')
+  if deco['inject']:
+    ctx.bucket('deco:layout-shifted-injects-leading')
+  if not deco['lead'] and not deco['inject'] and not deco['kept']:
+    ctx.bucket('deco:pass-through-signature-hidden')
+  return spec, p
+
+
+def reception(p, rec):
+  """What the body received; for a decorated probe: what the inner function received plus what the wrapper consumed ('<name>')."""
+  got = rec.received
+  if getattr(p, 'ran', None):
+    got = dict(got)
+    got.update(p.ran[-1])
+  return got
+
+
+def describe_deco(spec, deco):
+  inner = deco['inner']
+  fwd = ', '.join(['<injected>'] * deco['inject'] + list(deco['kept']) + ['*args', '**kwargs'])
+  return '`wrapper(%s)` (functools.wraps; calls `inner(%s)`, inner signature `(%s)`)' % (
+      probes.params_source(spec, 'D'), fwd, probes.params_source(inner, 'D'))
+
+
+def describe_call(gin, P, K):
+  return '(%s)' % ', '.join(['REQUIRED' if v is gin.REQUIRED else 'v' for v in P] + ['%s=%s' % (k, 'REQUIRED' if v is gin.REQUIRED else 'v') for k, v in K.items()])
+
+
 def build_args(gin, call):
   P = [gin.REQUIRED if i in call['marks_pos'] else ['caller-pos', i] for i in range(call['nP'])]
   P += [gin.REQUIRED if call['vararg_mark'] == i else ['caller-var', i] for i in range(call['extraP'])]
@@ -496,7 +634,10 @@ def run_case(ctx, case):
   if case['kind'] == 'history':
     return run_history(ctx, gin, case)
   gin.clear_config()
-  spec, p = build_probe(ctx, case['spec'], case['spec']['shape'] != 'method' and ctx.case_no % 3 == 0)
+  if case.get('deco'):
+    spec, p = build_decorated(ctx, case['spec'], case['deco'])
+  else:
+    spec, p = build_probe(ctx, case['spec'], case['spec']['shape'] != 'method' and ctx.case_no % 3 == 0)
   model = {}
   lines = []
   if case.get('mode') == 'reference':
@@ -571,6 +712,21 @@ def do_call(ctx, gin, p, spec, model, call, active, mode, ref_scoped, followup):
     ctx.bucket('mark:signature')
   if call['vararg_mark'] is not None:
     ctx.bucket('mark:vararg-slot' if spec['varargs'] else 'mark:surplus-positional-no-varargs')
+  deco = call.get('deco')
+  if deco:
+    # the signature that decides what a positional slot is called, which slots are unnamed and what is signature-level REQUIRED is the one of the
+    # callable Gin calls (the decorator's wrapper): CPython binds the caller's arguments against that one, not against the function it wraps
+    ipos = probes.positional_names(deco['inner'])
+    if call['vararg_mark'] is not None and nP + call['vararg_mark'] < len(ipos):
+      ctx.bucket('deco:marker-in-wrapper-varargs-slot-named-by-inner')
+    if call['marks_pos']:
+      ctx.bucket('deco:positional-marker-on-wrapper-named-param')
+    if any(pos[i] not in deco['kept'] for i in call['marks_pos']) or any(k in pos and k not in deco['kept'] for k in call['marks_kw']):
+      ctx.bucket('deco:marker-on-consumed-leading-param')
+    if any(k not in pos and k in probes.all_named(deco['inner']) for k in call['marks_kw']):
+      ctx.bucket('deco:keyword-marker-on-inner-param')
+    if sig_marked:
+      ctx.bucket('deco:wrapper-signature-required')
 
   # ---- model
   expect = None
@@ -612,19 +768,24 @@ def do_call(ctx, gin, p, spec, model, call, active, mode, ref_scoped, followup):
         expect = ('TypeError', str(e))
 
   mark = probes.RECORDER.mark()
+  wmark = len(p.ran) if deco else 0
   got_exc = None
   try:
     invoke(ctx, gin, p, P, dict(K), active, mode, ref_scoped)
   except Exception as e:  # pylint: disable=broad-except
     got_exc = e
   recs = probes.RECORDER.since(mark, p.pid)
+  wruns = len(p.ran) - wmark if deco else 0      # runs of the decorator's wrapper: the body of the function Gin wraps
+  where = ' [registered callable %s called with %s]' % (describe_deco(spec, deco), describe_call(gin, P, K)) if deco else ''
   ctx.count('calls_compared')
   kinds = sorted({applicable[x].kind for x in marked if x in applicable})
   ctx.fp(spec['shape'], spec['api'], len(spec['pos']), len(spec['dflt']), spec['varargs'], len(spec['kwonly']), spec['varkw'],
          len(call['marks_pos']), len(call['marks_kw']), len(sig_marked), expect[0], len(expect[1]) if expect[0] == 'RuntimeError' else 0, len(active),
-         mode, kinds)
+         mode, kinds, (deco['lead'], deco['inject'], len(deco['kept']), len(ipos), deco['inner']['varargs'], deco['inner']['varkw'],
+                       call['extraP'], call['vararg_mark']) if deco else None)
   ctx.sample({'spec': spec, 'P': [('REQUIRED' if v is gin.REQUIRED else 'v') for v in P], 'K': {k: ('REQUIRED' if v is gin.REQUIRED else 'v') for k, v in K.items()},
-              'active': active, 'mode': mode, 'bindings': sorted((sc, sorted(d)) for (sc, _), d in model.items()), 'expect': repr(expect)[:300]}, cap=4)
+              'active': active, 'mode': mode, 'bindings': sorted((sc, sorted(d)) for (sc, _), d in model.items()), 'expect': repr(expect)[:300],
+              'deco': deco}, cap=4)
 
   if expect[0] == 'AnyError':
     ctx.check(got_exc is not None and not recs, expect[1],
@@ -632,18 +793,24 @@ def do_call(ctx, gin, p, spec, model, call, active, mode, ref_scoped, followup):
     return 'rejected'
   if expect[0] == 'ValueError':
     ctx.bucket('outcome:vararg-rejected')
-    ctx.check(isinstance(got_exc, ValueError) and not recs, 'vararg-required-not-rejected',
-              'gin.REQUIRED in a *args slot: got %r, body ran %d times' % (got_exc, len(recs)))
+    if deco:
+      ctx.bucket('deco:vararg-rejected')
+    ctx.check(isinstance(got_exc, ValueError) and not recs and not wruns, 'vararg-required-not-rejected',
+              'gin.REQUIRED in a *args slot%s: got %r, body ran %d times%s' %
+              (' of the registered callable %s' % describe_deco(spec, deco) if deco else '', got_exc, max(len(recs), wruns),
+               ', the inner function received %r' % (recs[0].received,) if deco and recs else ''))
     return 'rejected'
   if expect[0] == 'RuntimeError':
     ctx.bucket('outcome:missing')
     if len(expect[1]) > 1:
       ctx.bucket('outcome:missing-multiple')
     if not ctx.check(isinstance(got_exc, RuntimeError), 'missing-required-not-reported',
-                     'unfilled REQUIRED %r (path %s, scope %r): expected RuntimeError, got %r (body ran %d times, received %r)' %
-                     (expect[1], mode, active, got_exc, len(recs), recs[0].received if recs else None)):
+                     'unfilled REQUIRED %r (path %s, scope %r): expected RuntimeError, got %r (body ran %d times, received %r)%s' %
+                     (expect[1], mode, active, got_exc, len(recs), recs[0].received if recs else None, where)):
       return 'missing'
-    ctx.check(not recs, 'body-ran-despite-missing-required', 'body ran although %r were unfilled' % (expect[1],))
+    ctx.check(not recs and not wruns, 'body-ran-despite-missing-required', 'body ran although %r were unfilled' % (expect[1],))
+    if deco:
+      ctx.bucket('deco:missing')
     mt = MSG.search(str(got_exc))
     if not ctx.check(mt is not None, 'required-error-message-format', 'message %r' % str(got_exc)[:300]):
       return 'missing'
@@ -653,25 +820,39 @@ def do_call(ctx, gin, p, spec, model, call, active, mode, ref_scoped, followup):
     ctx.check(named == [p.selector], 'required-error-names-wrong-configurable',
               'error names %r which denotes %r among the registered selectors, expected exactly %s' % (mt.group(1), named, p.selector))
     listed = ast.literal_eval(mt.group(2))
-    ctx.check(listed == expect[1], 'required-error-list-differs',
-              'error lists %r, model (unfilled, signature order) %r (path %s, scope %r)' % (listed, expect[1], mode, active))
+    if deco:
+      # exactly the unfilled names; their order is demanded only among the parameters that the wrapper's and the inner function's signature
+      # both name (in the same relative order) - where the remaining ones belong depends on whose signature 'signature order' refers to
+      both = deco['kept']
+      ctx.check(sorted(listed) == sorted(expect[1]) and [x for x in listed if x in both] == [x for x in expect[1] if x in both],
+                'required-error-list-differs', 'registered callable %s called with %s: error lists %r, the unfilled REQUIRED parameters are %r (path %s, scope %r)' %
+                (describe_deco(spec, deco), describe_call(gin, P, K), listed, expect[1], mode, active))
+    else:
+      ctx.check(listed == expect[1], 'required-error-list-differs',
+                'error lists %r, model (unfilled, signature order) %r (path %s, scope %r)' % (listed, expect[1], mode, active))
     if followup:
       followup_call(ctx, gin, p, spec, active, applicable, sig_marked)
     return 'missing'
+  if expect[0] == 'TypeError' and deco:
+    # e.g. a bound inner parameter that the caller also reaches through the wrapper's *args: whether the binding has to yield is not C10's matter
+    ctx.bucket('deco:binder-typeerror-not-judged')
+    return 'typeerror'
   if expect[0] == 'TypeError':
     ctx.check(isinstance(got_exc, TypeError), 'expected-TypeError', 'binder raises TypeError(%s); gin gave %r' % (expect[1], got_exc))
     return 'typeerror'
   ctx.bucket('outcome:filled' if expect[2] else 'outcome:no-marker')
-  if not ctx.check(got_exc is None, 'unexpected-exception', 'call raised %s: %s; expected %r (path %s, scope %r)' %
-                   (type(got_exc).__name__, str(got_exc)[:300], expect[1], mode, active)):
+  if not ctx.check(got_exc is None, 'unexpected-exception', 'call raised %s: %s; expected %r (path %s, scope %r)%s' %
+                   (type(got_exc).__name__, str(got_exc)[:300], expect[1], mode, active, where)):
     return 'error'
-  if not ctx.check(len(recs) == 1, 'probe-run-count', 'probe body ran %d times' % len(recs)):
+  if not ctx.check(len(recs) == 1 and wruns == (1 if deco else 0), 'probe-run-count', 'probe body ran %d times' % len(recs)):
     return 'error'
-  got = recs[0].received
+  got = reception(p, recs[0])
+  if deco and expect[2]:
+    ctx.bucket('deco:filled')
   flat = list(got.values()) + list(got.get('*', ())) + list(got.get('**', {}).values())
   ctx.check(not any(v is gin.REQUIRED for v in flat), 'required-marker-leaked', 'the function received gin.REQUIRED itself: %r' % got)
   e = expect[1]
-  received_marked = {x: (got[x] if x in got else got.get('**', {}).get(x)) for x in marked}
+  received_marked = {x: (got[x] if x in got else got['<%s>' % x] if '<%s>' % x in got else got.get('**', {}).get(x)) for x in marked}
   for x in marked:
     b = applicable[x]
     if b.kind == 'evalref':
@@ -692,7 +873,7 @@ def do_call(ctx, gin, p, spec, model, call, active, mode, ref_scoped, followup):
               'REQUIRED-marked %r bound to a reference/macro: received %r, the binding delivers %r' %
               (undelivered, {x: received_marked[x] for x in undelivered}, {x: applicable[x] for x in undelivered}))
   else:
-    ctx.check(same_reception(e, got), 'required-filled-wrong', 'received %r, model %r (applicable %r, path %s, scope %r)' % (got, e, applicable, mode, active))
+    ctx.check(same_reception(e, got), 'required-filled-wrong', 'received %r, model %r (applicable %r, path %s, scope %r)%s' % (got, e, applicable, mode, active, where))
   # the consumer changes the containers it was handed; the next identical call must again be filled from the binding
   mutated = []
   for x in marked:
@@ -718,9 +899,9 @@ def do_call(ctx, gin, p, spec, model, call, active, mode, ref_scoped, followup):
       exc = ex
     recs = probes.RECORDER.since(mark, p.pid)
     if ctx.check(exc is None and len(recs) == 1, 'unexpected-exception', 'the same call repeated raised %r (body ran %d times)' % (exc, len(recs))):
-      ctx.check(same_reception(e2, recs[0].received), 'required-filled-value-aliases-config',
+      ctx.check(same_reception(e2, reception(p, recs[0])), 'required-filled-value-aliases-config',
                 'the consumer mutated the containers it received for %r; the same call repeated then received %r, the binding is %r' %
-                (mutated, recs[0].received, {x: applicable[x] for x in mutated}))
+                (mutated, reception(p, recs[0]), {x: applicable[x] for x in mutated}))
   if followup:
     followup_call(ctx, gin, p, spec, active, applicable, sig_marked)
   return 'filled' if expect[2] else 'nomarker'
@@ -760,7 +941,7 @@ def followup_call(ctx, gin, p, spec, active, applicable, sig_marked):
   if not ctx.check(exc is None and len(recs) == 1, 'later-unmarked-call-failed',
                    'a later call without any REQUIRED marker (all unfilled parameters supplied by the caller) raised %r' % (exc,)):
     return
-  got = recs[0].received
+  got = reception(p, recs[0])
   ctx.check(same_reception(want, got), 'later-unmarked-call-differs', 'later unmarked call received %r, model %r' % (got, want))
 
 
@@ -770,10 +951,16 @@ def finish(ctx):
 
 
 LEVEL_TEXT = ('Runtime monitor with a REQUIRED-rule reference model: every generated placement of gin.REQUIRED (positional, keyword, '
-              'signature default, **kwargs extra, *args slot, surplus positional, unknown keyword) x binding subset x kind of bound value x scope '
+              'signature default, **kwargs extra, *args slot, surplus positional, unknown keyword; also on wrappers of non-Gin functools.wraps '
+              'decorators that consume / inject / re-name / hide leading positionals) x binding subset x kind of bound value x scope '
               'x access path is executed on the real wrapper, also as histories of one wrapper across which applicability changes; the exception '
               'class, the parsed error message (configurable named, unfilled names in signature order), whether the body ran, the exact reception '
               '(CPython binder with the marker replaced in place by what the binding delivers) and non-leakage of the marker are compared.')
-LEVEL_NOTE = 'Trusted: the REQUIRED model (~60 lines) and CPython argument binding. Bindings whose value is %gin.REQUIRED itself are excluded (DESIGN X).'
+LEVEL_NOTE = ('Trusted: the REQUIRED model (~60 lines) and CPython argument binding. Bindings whose value is %gin.REQUIRED itself are excluded (DESIGN X). '
+              'Configurables behind a non-Gin functools.wraps decorator are inside the property: "signature", "position" and "unnamed variadic positional" '
+              'are read against the callable Gin registers and calls (the decorator\'s wrapper - CPython binds the caller\'s arguments against it, and '
+              'Gin\'s own vararg error text says so), never against the function it wraps. Left open there: signature-level REQUIRED of the inner function '
+              '(not generated), the place of names outside both signatures in the missing list (only set equality + order among names both signatures '
+              'share), and calls whose binder raises TypeError (a bound inner parameter also reached through *args).')
 TECHNIQUE = 'runtime reference-model monitor over generated REQUIRED placements and call histories, with error-message parsing'
 DESIGN_REF = 'DESIGN.md section 4, C10'
